@@ -227,8 +227,10 @@ def judge(spec, res):
         return out
     if r == "star":
         A, B = M
+        spec["_threw"] = int(A is None) + int(B is None)
         if A is None or B is None:
             if (A is None) != (B is None): out.append(("star: exception", "SurfSourceMat throws for one of two source meshes that differ by one displaced vertex"))
+            else: out.append(("throws for a source surface inside a conductive domain", "SurfSourceMat throws (status %s) for a closed 12-vertex source surface that lies well inside a conductive domain of the head (before the fix 4b8856e: whenever that domain is bounded by a current-barrier mesh, e.g. a one-layer head)" % (res[0][0],)))
             return out
         spec["_nonzero"] = sum(1 for j in spec["same"] if colmax(A[j]) > 0); spec["_changed"] = sum(1 for j in spec["moved"] if not same_bits(A[j], B[j]))
         for j in spec["same"]:
@@ -564,7 +566,7 @@ def main(replay=None):
                   op_distribution=rel_dist, models=infos, integrator=istats, structure_cases=nstruct, structure_mismatches=struct_mis,
                   relation_failures=nspec_fail, traces_validated_against_impl=nstruct + len(ic) + vstats["agree_cases"],
                   surf_source=dict(star_cases=sum(1 for s_ in allspecs if s_["rel"] == "star"), unchanged_columns_compared=sum(len(s_["same"]) for s_ in allspecs if s_["rel"] == "star"),
-                                   of_which_nonzero=sum(s_.get("_nonzero", 0) for s_ in allspecs if s_["rel"] == "star"), columns_that_did_change=sum(s_.get("_changed", 0) for s_ in allspecs if s_["rel"] == "star"),
+                                   threw=sum(s_.get("_threw", 0) for s_ in allspecs if s_["rel"] == "star"), of_which_nonzero=sum(s_.get("_nonzero", 0) for s_ in allspecs if s_["rel"] == "star"), columns_that_did_change=sum(s_.get("_changed", 0) for s_ in allspecs if s_["rel"] == "star"),
                                    note="SurfSourceMat on a 12-vertex source surface vs the same surface with one vertex displaced: columns of the source vertices sharing no triangle with it compared bitwise (ssm_column_star); the columns of the displaced vertex and its neighbours are expected to change"),
                   several_threads=dict(THREAD_STATS, threads=[2, 4], asserted="DipSourceMat: P0 rows (operatorDipolePot, owner computes) bitwise, P1 rows (operatorDipolePotDer, omp critical accumulation in arrival order) within %g*max|column|, zero columns exactly zero; DipSource2InternalPotMat (no parallel loop): bitwise; DipSource2MEGMat: no parallel loop, one-thread run only" % THREAD_REL),
                   value_tie=dict(vstats, mismatches=vstats["mismatches"][:5], note="complete float model (Sources.DSM/DS2IP/DS2MEG + AdaptInt.integrate + Geom/Kernels.v) vs the real matrices, rounding class 1e-10*max|column|; informative: a mismatch alone is reported as a note, not as a violation (the theorems are parametric in the kernels)"),
